@@ -86,3 +86,56 @@ func c04LoopedElse(r *Run) {
 		}
 	}
 }
+
+// c04InstancePrivacy: what one instance binds besides the loop variables is bound "inside that instance only" too: a name set by a plain
+// `<template name="…">` that only SOME items reach (it sits under the item's own v-if) is that item's; the next item sees the outer value
+// again - in text, in a binding, in a condition, as the collection of an inner loop - and so does the content after the loop.
+func c04InstancePrivacy(r *Run) {
+	for _, cl := range c04Colls() {
+		if len(cl.strs) < 2 || !c04PlainItems[cl.name] {
+			continue
+		}
+		for _, hit := range []int{0, 1} {
+			for _, where := range []string{"text", "binding", "condition", "inner-loop"} {
+				set := fmt.Sprintf(`<b v-if="i == %d"><template outer="LOCAL" more='["m1","m2"]'></template></b>`, hit)
+				var read string
+				want := func(local bool) string { return map[bool]string{true: "LOCAL", false: "O"}[local] }
+				switch where {
+				case "text":
+					read = `[[I:{{ i }}|{{ outer }}]]`
+				case "binding":
+					read = `<u :title="outer">[[I:{{ i }}|{{ outer }}]]</u>`
+				case "condition":
+					read = `<u v-if="outer == 'LOCAL'">[[I:{{ i }}|LOCAL]]</u><u v-else>[[I:{{ i }}|O]]</u>`
+				case "inner-loop":
+					read = `[[I:{{ i }}|{{ outer }}]]<s v-for="m in more">[[m:{{ m }}]]</s>`
+				}
+				tpl := `<b>[[before:{{ outer }}]]</b><ul><li v-for="(i, x) in xs">` + set + read + `</li></ul><b>[[after:{{ outer }}]]</b>`
+				data := map[string]any{"outer": "O", "xs": cl.v}
+				files := map[string]string{"p.vuego": tpl}
+				res := renderPage(files, "p.vuego", data)
+				wantM := []string{"before:O"}
+				for i := range cl.strs {
+					wantM = append(wantM, fmt.Sprintf("I:%d|%s", i, want(i == hit)))
+					if where == "inner-loop" && i == hit {
+						wantM = append(wantM, "m:m1", "m:m2")
+					}
+				}
+				wantM = append(wantM, "after:O")
+				var got []string
+				for _, mm := range c04Re.FindAllStringSubmatch(res.Out, -1) {
+					got = append(got, mm[1])
+				}
+				name := fmt.Sprintf("instance-privacy %s over %s hit=%d", where, cl.name, hit)
+				c := &Case{Name: name, Key: name, Input: map[string]any{"loopedelse": true, "tpl": tpl, "coll": cl.name}, Impl: res.canon(), Oracle: &Verdict{OK: true}, Tags: []string{"form:instance-privacy", "coll:" + cl.name}}
+				if res.Err != "" || res.Panic != "" || res.Timeout {
+					c.Oracle = &Verdict{OK: false, Class: "loop-render-failed:instance-privacy:" + cl.name, Detail: fmt.Sprintf("%+v", res)}
+				} else if strings.Join(got, ",") != strings.Join(wantM, ",") {
+					c.Oracle = &Verdict{OK: false, Class: "instance-binding-leaks-into-later-instance:" + where, Detail: fmt.Sprintf("markers %v, expected %v; template %q", got, wantM, tpl)}
+				}
+				r.Add(c)
+				pendingPages = append(pendingPages, pageCase("loop", files, nil, "p.vuego", data, "form:instance-privacy"))
+			}
+		}
+	}
+}
